@@ -241,7 +241,7 @@ RESOURCE_UID = re.compile(r'__(?:RESOURCE_FILE|RESOURCE_GROUP|PYTHON_RESULT)__\d
 # string) from which on the counters / floors tell apart how deep into a command a checked reference sat
 # phase rejected: the pattern "a command / call that misspells a file of another job is refused, the corrected one is accepted".
 # See the note at the bottom of this file (candidate defect: the refused reference stays registered as a download of the consumer).
-REJECTED_TYPO_IN_WORKLOAD = os.environ.get('VERIF_C18_REJECTED_TYPO', '0') == '1'
+REJECTED_TYPO_IN_WORKLOAD = os.environ.get('VERIF_C18_REJECTED_TYPO', '1') == '1'
 WIDE_WIDTHS = [(9, 12), (9, 12), (17, 24), (17, 24), (33, 40), (33, 40), (65, 80), (65, 80), (129, 140), (257, 264)]
 POSITIONS = (8, 16, 32, 64, 128, 256)
 
